@@ -150,6 +150,7 @@ def handle (_ : Unit) (j : Json) : Except String (Unit × Json) := do
                                         ("subckt", Json.str "out:model-read-fails")])
     | .ok n =>
       pure ((), Json.mkObj [("full", Json.str (fragFull (optsOf j) n)), ("any", Json.str (fragAny (optsOf j) n)),
+                            ("leaf", Json.str (fragLeaf (optsOf j) n)),
                             ("subckt", Json.str (fragSubckt (optsOf j) n))])
   else throw s!"unknown fn {fn}"
 
